@@ -31,6 +31,8 @@ SMI_IMPORTABLE = {'Integer32', 'Unsigned32', 'Gauge32', 'Counter32', 'Counter64'
 
 
 class Names:
+    keywords = False         # also hand out Python keywords (legal MIB identifiers)
+
     def __init__(self, rng):
         self.rng = rng
         self.used = set()
@@ -55,6 +57,13 @@ class Names:
             if cand not in self.local and cand not in self.imported and (hyphen_ok or '-' not in cand):
                 self.local.add(cand)
                 return cand
+        if self.keywords and r.random() < 0.25:
+            cands = sorted(k for k in PY_KEYWORDS if k[0].isupper() == bool(upper) and k not in self.used)
+            if cands:
+                s = r.choice(cands)
+                self.used.add(s)
+                self.local.add(s)
+                return s
         while True:
             stem = r.choice(['acme', 'widget', 'if', 'sys', 'node', 'x', 'foo', 'barBaz', 'q9', 'tempSensor', 'a'])
             s = stem + (r.choice(['', 'Entry', 'Table', 'Index', 'Count', 'State', 'Name']) if r.random() < 0.5 else '')
@@ -240,7 +249,12 @@ class SetGen:
                          'description': self.text(), 'reference': self.text() if rng.random() < 0.5 else None, 'oidparts': parts}, oid)
                 elif r < 0.42:
                     # type declaration or textual convention, possibly derived from an earlier one
-                    syn = gen_syntax(rng, self.visible_types(mname))
+                    vt = self.visible_types(mname)
+                    if self.pysnmp_safe:
+                        vt = [t for t in vt if not t.get('tc')]
+                    syn = gen_syntax(rng, vt)
+                    while self.pysnmp_safe and syn['base'] == 'DisplayString':
+                        syn = gen_syntax(rng, vt)
                     if syn['base'] in SMI_IMPORTABLE:
                         imp('SNMPv2-SMI', syn['base'])
                     if syn['base'] == 'DisplayString':
@@ -257,7 +271,7 @@ class SetGen:
                     self.use_type(mname, imp, syn)
                     resolved = syn.get('resolved') if syn.get('user') else syn
                     add(d, None, syntax=syn, chain_base=resolved)
-                    ent = {'name': name, 'root': syn.get('kind'), 'module': mname, 'resolved': resolved,
+                    ent = {'name': name, 'root': syn.get('kind'), 'module': mname, 'resolved': resolved, 'tc': tc,
                            'parent': syn['base'] if syn.get('user') and syn.get('tmodule') in (None, mname) else None}
                     types.append(ent)
                     self.all_types.append(ent)
@@ -319,6 +333,7 @@ class SetGen:
                 nodetype='scalar', syntax=syn, chain_base=resolved)
 
     families = True
+    pysnmp_safe = False      # avoid the two recorded pysnmp-template defects (a type deriving from a TEXTUAL-CONVENTION)
 
     def add_family(self, mname, m, add, imp, pick_parent):
         """T1 ::= Tb, …, Tk ::= Tb declared before Tb ::= <base>: several forward references that become resolvable
@@ -334,9 +349,13 @@ class SetGen:
             imp('SNMPv2-SMI', base['base'])
         if base['base'] == 'DisplayString':
             imp('SNMPv2-TC', 'DisplayString')
+        while self.pysnmp_safe and base['base'] == 'DisplayString':
+            base = gen_syntax(rng, [])
+            while base['base'] == 'BITS' or 'enum' in base:
+                base = gen_syntax(rng, [])
         for tn in tnames + [tb]:
             syn = base if tn == tb else {'base': tb, 'kind': base['kind'], 'user': True}
-            tc = rng.random() < 0.6
+            tc = rng.random() < 0.6 and not (self.pysnmp_safe and tn == tb)
             if tc:
                 imp('SNMPv2-TC', 'TEXTUAL-CONVENTION')
             add({'kind': 'textualConvention' if tc else 'typeDecl', 'name': tn, 'syntax': syn, 'displayHint': None,
@@ -356,7 +375,7 @@ class SetGen:
             imp('SNMPv2-TC', 'DisplayString')
         for i, tn in enumerate(tnames):
             syn = base if i == k - 1 else {'base': tnames[i + 1], 'kind': base['kind'], 'user': True}
-            tc = rng.random() < 0.4
+            tc = rng.random() < 0.4 and not (self.pysnmp_safe and (i > 0 or (i == k - 1 and base['base'] == 'DisplayString')))
             if tc:
                 imp('SNMPv2-TC', 'TEXTUAL-CONVENTION')
             add({'kind': 'textualConvention' if tc else 'typeDecl', 'name': tn, 'syntax': syn, 'displayHint': None,
@@ -767,6 +786,9 @@ def filler(rng, terminator):
 
 
 def jname(s):
+    """the name under which the outputs know a MIB symbol: hyphens become underscores, Python keywords get a prefix"""
+    if s in PY_KEYWORDS:
+        s = 'pysmi_' + s
     return s.replace('-', '_')
 
 
